@@ -56,6 +56,7 @@ class K:
     """
 
     def __init__(self, name, params, body, cfg=DEFAULT, meta=None, pre=''):
+        name = re.sub(r'\W', '_', name)
         self.name = name if name.startswith('k_') else 'k_' + name
         self.params = params
         self.body = body
@@ -130,6 +131,37 @@ def _failed_names(stderr, names):
     return bad
 
 
+def _first_error(err):
+    for line in err.splitlines():
+        m = re.match(r'^(\S+?):(\d+):(\d+): (?:fatal )?error: (.*)', line)
+        if m:
+            f = m.group(1)
+            return '%s:%s: %s' % (f[len(REPO) + 1:] if f.startswith(REPO) else f, m.group(2), m.group(4))
+    return err[:200]
+
+
+def _bisect(cfg, ks, path, err):
+    """find the kernels whose presence makes the TU fail (each is compiled alone at the end)"""
+    bad = {}
+
+    def rec(group, gerr):
+        if len(group) == 1:
+            bad[group[0].name] = _first_error(gerr)
+            return
+        h = len(group) // 2
+        for part in (group[:h], group[h:]):
+            rc, e, _ = _compile_tu((cfg, part, path + '.bis'))
+            if rc != 0:
+                rec(part, e)
+    rec(list(ks), err)
+    for ext in ('.bis.cpp', '.bis.ll'):
+        try:
+            os.remove(path + ext)
+        except OSError:
+            pass
+    return bad
+
+
 def build(kernels, workdir, tu_size=120, jobs=None, log=None):
     """compile all kernels (grouped by cfg). returns (index, failures)
     index: {(cfgname, kernelname): (jsonl path, byte offset)} ; failures: {(cfgname, kernelname): first error text}
@@ -168,7 +200,10 @@ def build(kernels, workdir, tu_size=120, jobs=None, log=None):
                 break
             bad = _failed_names(err, {k.name for k in ks})
             if not bad:
-                return cfg, ks, path, fails, 'TU compile failure not attributable to a kernel:\n' + err[:3000]
+                # errors raised during code generation carry no instantiation notes: isolate the kernels by bisection
+                bad = _bisect(cfg, ks, path, err)
+                if not bad:
+                    return cfg, ks, path, fails, 'TU compile failure not attributable to a kernel:\n' + err[:3000]
             for n_, e in bad.items():
                 fails[n_] = e
             ks = [k for k in ks if k.name not in bad]
